@@ -365,6 +365,10 @@ class Calls:
         if short == 'isinstance':
             return Bool(None)
         if short in ('hasattr',):
+            nm = S.const_value(env, args[1]) if len(args) > 1 and isinstance(args[1], Str) else None
+            if nm is not None and isinstance(a0, Mod):
+                m_ = ctx.prog.mods[a0.name]
+                return Bool(ctx.prog.resolve_name(m_, nm) is not None or (a0.name + '.' + nm) in ctx.prog.mods or nm in m_.assign_nodes)
             return Bool(None)
         if short == 'getattr':
             nm = S.const_value(env, args[1]) if len(args) > 1 and isinstance(args[1], Str) else None
@@ -433,6 +437,10 @@ class Calls:
                     okc = True
                 except Exception:
                     okc = False
+            if not okc and len(args) >= 3 and all(isinstance(x, Int) for x in args[:3]) and ('validdate', args[0].iid, args[1].iid, args[2].iid) in env.facts \
+                    and args[0].lo is not None and args[0].hi is not None and 1 <= args[0].lo and args[0].hi <= 9999 \
+                    and args[1].lo is not None and args[1].hi is not None and 1 <= args[1].lo and args[1].hi <= 12:
+                okc = True
             if not okc:
                 ctx.raise_('ValueError', node, env, 'date() out of range')
             return Opaque('date')
@@ -459,7 +467,10 @@ class Calls:
                 ctx.raise_('struct.error', node, env, 'struct.pack(%r)' % (v,))
             return Opaque('bytes')
         if name in ('binascii.a2b_hex', 'a2b_hex'):
-            ctx.raise_('binascii.Error', node, env, 'a2b_hex')
+            hexc = self.B.cls_of_chars('0123456789abcdefABCDEF')
+            ok = isinstance(a0, Str) and a0.fixed and len(a0.pre) % 2 == 0 and all(env.cls(c) <= hexc for c in a0.pre)
+            if not ok:
+                ctx.raise_('binascii.Error', node, env, 'a2b_hex() argument is not provably an even number of hex digits')
             return Opaque('bytes')
         if name in ('functools.reduce', 'reduce'):
             # reduce(f, iterable, init): run f once on joined element with widening
